@@ -102,6 +102,15 @@ RECURSIVE HalfFrom(_, _, _)
 HalfFrom(a, i, c) == IF i = 0 THEN <<>> ELSE HalfFrom(a, i - 1, a[i] % 2) \o <<(a[i] + B * c) \div 2>>
 Half(a) == Trim(HalfFrom(a, Len(a), 0))
 
+\* bitwise operations (on the binary expansions) and integer roots
+BitAnd(a, b) == OfBitsLE([i \in 1..8 * Max(Len(a), Len(b)) |-> Bit(a, i - 1) * Bit(b, i - 1)])
+BitOr(a, b) == OfBitsLE([i \in 1..8 * Max(Len(a), Len(b)) |-> Bit(a, i - 1) + Bit(b, i - 1) - Bit(a, i - 1) * Bit(b, i - 1)])
+BitXor(a, b) == OfBitsLE([i \in 1..8 * Max(Len(a), Len(b)) |-> (Bit(a, i - 1) + Bit(b, i - 1)) % 2])
+ShrBits(a, n) == OfBitsLE([i \in 1..Max(0, 8 * Len(a) - n) |-> Bit(a, i - 1 + n)])
+LowBits(a, n) == OfBitsLE([i \in 1..n |-> Bit(a, i - 1)])
+\* rotation of an n-bit word to the right by k
+RotR(a, k, n) == OfBitsLE([i \in 1..n |-> Bit(a, (i - 1 + k) % n)])
+
 \* division with remainder, digit-serial (Knuth D without normalisation): for
 \* each digit of a from the top, r := r * 256 + d; the quotient digit is
 \* estimated from the three leading digits of r and the two leading digits of m
@@ -129,6 +138,15 @@ Rem(a, m) == IF Lt(a, m) THEN a
              ELSE LET n == Len(m) IN   \* the top n-1 digits of a are already < m
                   ModFrom(a, m, Len(a) - (n - 1), Trim(SubSeq(a, Len(a) - n + 2, Len(a))))
 Quo(a, m) == DivMod(a, m)[1]
+
+\* integer k-th root (k = 2, 3): the largest x with x^k <= a, by bisection on the bit length
+RECURSIVE RootSearch(_, _, _, _)
+RootSearch(a, k, lo, hi) ==      \* invariant lo^k <= a < hi^k
+  IF Add(lo, One) = hi THEN lo
+  ELSE LET mid == Half(Add(lo, hi))
+           pw == IF k = 2 THEN Mul(mid, mid) ELSE Mul(Mul(mid, mid), mid)
+       IN IF Le(pw, a) THEN RootSearch(a, k, mid, hi) ELSE RootSearch(a, k, lo, mid)
+IRoot(a, k) == RootSearch(a, k, Zero, Pow2((NumBits(a) \div k) + 1))
 
 \* modular arithmetic on residues 0..m-1
 AddM(a, b, m) == LET s == Add(a, b) IN IF Lt(s, m) THEN s ELSE Sub(s, m)
